@@ -49,7 +49,8 @@ class Ctx:
         self.notes = []
 
     def cleanup(self):
-        shutil.rmtree(self.workdir, ignore_errors=True)
+        if not os.environ.get("VERIF_KEEP"):
+            shutil.rmtree(self.workdir, ignore_errors=True)
 
 
 def sh(cmd, cwd=None, env=None, timeout=None, check=False, inp=None):
